@@ -27,14 +27,18 @@ pub struct BoxError { e: u8 }
 #[verifier::reject_recursive_types(K)]
 #[verifier::reject_recursive_types(V)]
 pub struct LruCache<K, V> { c: u8, k: core::marker::PhantomData<(K, V)> }
+/// keys are looked up by their text, whether given as &String or &str (lru's `K: Borrow<Q>`)
+pub trait KeyText { spec fn text(&self) -> Seq<char>; }
+impl KeyText for String { open spec fn text(&self) -> Seq<char> { self@ } }
+impl KeyText for str { open spec fn text(&self) -> Seq<char> { self@ } }
 impl LruCache<String, Query> {
     pub uninterp spec fn map(&self) -> Map<Seq<char>, Query>;
     #[verifier::external_body]
-    pub fn get(&mut self, k: &String) -> (r: Option<&Query>)
+    pub fn get<Q: ?Sized + KeyText>(&mut self, k: &Q) -> (r: Option<&Query>)
         ensures
             final(self).map() == old(self).map(),
-            r matches Some(q) ==> old(self).map().contains_key(k@) && *q == old(self).map()[k@],
-            r is None ==> !old(self).map().contains_key(k@),
+            r matches Some(q) ==> old(self).map().contains_key(k.text()) && *q == old(self).map()[k.text()],
+            r is None ==> !old(self).map().contains_key(k.text()),
     { unimplemented!() }
     #[verifier::external_body]
     pub fn put(&mut self, k: String, v: Query) -> (r: Option<Query>)
@@ -55,10 +59,21 @@ pub fn parse_query(s: &str) -> (r: Result<Query, BoxError>)
         r matches Ok(q) ==> parse_spec(s@) == Some(q),
         r is Err ==> parse_spec(s@) is None,
 { unimplemented!() }
-/// `s.split_whitespace().collect::<Vec<_>>().join(" ")` (A-STD; the wrapper's body is the original expression)
+/// `s.split(P).filter(|w| !w.is_empty()).collect::<Vec<_>>().join(" ")` for a character predicate P (A-STD; the wrapper's
+/// body is the original chain): the non-empty maximal runs of characters not satisfying P, joined by single spaces.
+/// P must be the grammar's white space: that is an OBLIGATION on the closure (its annotated ensures), not an assumption.
 #[verifier::external_body]
-pub fn normalize_ws(s: &str) -> (r: String)
+pub fn split_filter_join<P: FnMut(char) -> bool, F: FnMut(&&str) -> bool>(s: &str, p: P, f: F) -> (r: String)
+    requires
+        forall|c: char| p.requires((c,)), forall|w: &&str| f.requires((w,)),
+        forall|c: char, b: bool| p.ensures((c,), b) ==> b == is_ws(c),                 // the split predicate is exactly the grammar's white space
+        forall|w: &&str, b: bool| f.ensures((w,), b) ==> b == (w@.len() > 0),         // the filter keeps exactly the non-empty pieces
     ensures r@ == join_sp(words(s@))
+{ s.split(p).filter(f).collect::<Vec<_>>().join(" ") }
+/// the pre-fix form `s.split_whitespace().collect::<Vec<_>>().join(" ")` splits on Unicode White_Space, which is MORE than
+/// the grammar skips: its result is not known to be the words of the text (kept so that the older code stays decidable)
+#[verifier::external_body]
+pub fn normalize_unicode_ws(s: &str) -> (r: String)
 { s.split_whitespace().collect::<Vec<_>>().join(" ") }
 pub open spec fn pred_hits<F: FnMut(char) -> bool>(p: F, s: Seq<char>, hit: Seq<bool>) -> bool {
     hit.len() == s.len() && forall|i: int| #![trigger s[i]] #![trigger hit[i]] 0 <= i < hit.len() ==> p.ensures((s[i],), hit[i])
@@ -74,15 +89,14 @@ pub fn str_contains_pred<F: FnMut(char) -> bool>(s: &str, p: F) -> (r: bool)
 // =====================================================================
 // specification: what a cache key may identify
 // =====================================================================
-/// White_Space as `str::split_whitespace` sees it; only these facts are used: a space is white space, and the quote
-/// and slash characters are not
-pub uninterp spec fn is_ws(c: char) -> bool;
-#[verifier::external_body]
+/// white space as the grammar's WHITESPACE rule has it (cypher.pest): space, tab, CR, LF -- NOT Unicode White_Space
+/// (a vertical tab between two words is a syntax error, so it must not be normalised away)
+pub open spec fn is_ws(c: char) -> bool { c == ' ' || c == '\t' || c == '\r' || c == '\n' }
 pub proof fn axiom_ws()
     ensures is_ws(' '), !is_ws('\''), !is_ws('"'), !is_ws('/')
 {}
-/// the words of a text: maximal runs of non-white-space characters, in order (what split_whitespace yields; ASSUMED
-/// of std, stated through the three facts the proof uses)
+/// the words of a text: maximal runs of non-white-space characters, in order (what
+/// `split(is_ws).filter(non-empty)` yields; ASSUMED of std, stated through the three facts the proof uses)
 pub uninterp spec fn words(s: Seq<char>) -> Seq<Seq<char>>;
 #[verifier::external_body]
 pub proof fn axiom_words(s: Seq<char>)
@@ -237,7 +251,12 @@ impl QueryEngine {
         r matches Ok(q) ==> parse_spec(query_str@) == Some(q),           //#answers_as_a_fresh_parse
         r is Err ==> parse_spec(query_str@) is None,                     //#refuses_as_a_fresh_parse
 //@replace "Box<dyn std::error::Error>" => "BoxError" :: dyn Error is outside Verus; the error value is only propagated (opaque stand-in)
-//@replace "query_str.split_whitespace().collect::<Vec<_>>().join(\" \")" => "normalize_ws(query_str)" :: iterator/str API without Verus specification; wrapper body is the original expression
+//@replace "query_str.split_whitespace().collect::<Vec<_>>().join(\" \")" => "normalize_unicode_ws(query_str)" :: (older form) iterator/str API without Verus specification; wrapper body is the original expression
+//@replace "query_str<NL>                .split(" => "split_filter_join(query_str, " :: iterator/str API without Verus specification; wrapper body is the original chain
+//@replace ")<NL>                .filter(" => ", " :: (same chain)
+//@replace ")<NL>                .collect::<Vec<_>>()<NL>                .join(\" \")" => ")" :: (same chain)
+//@closure split_filter_join#1 (c: char) -> (b: bool) ensures b == (@BODY)
+//@closure split_filter_join#2 (w: &&str) -> (b: bool) ensures b == (w@.len() > 0)
 //@replace "query_str.contains(" => "str_contains_pred(query_str, " :: str::contains(Pattern) has no Verus specification; wrapper body is the original expression
 //@closure str_contains_pred#1 (c: char) -> (b: bool) ensures b == (@BODY)
 //@name KEY "let (\w+) = if str_contains_pred\("
